@@ -244,12 +244,42 @@ def _apply(root, edits):
     return None
 
 
+def _apply_patch(root, patch):
+    try:
+        r = subprocess.run(["git", "apply", "--include=selfies/*", patch], cwd=root, capture_output=True, text=True)
+    except OSError as e:
+        return "git not available: %s" % e
+    if r.returncode != 0:
+        return "patch does not apply to the current tree"
+    for dp, _, fs in os.walk(os.path.join(root, "selfies")):
+        for f in fs:
+            if f.endswith(".py"):
+                p = os.path.join(dp, f)
+                try:
+                    with open(p, encoding="utf-8") as fh:
+                        compile(fh.read(), p, "exec")
+                except SyntaxError as e:
+                    return "variant does not compile: %s" % e
+    return None
+
+
+def benign_patches():
+    """behaviour-preserving refactorings written by independent sub-agents (equivalence demonstrated by them on
+    exhaustive / sampled inputs and the full suite, see selftest/benign/INDEX.txt): every check must stay silent"""
+    d = os.path.join(os.path.dirname(os.path.abspath(__file__)), "benign")
+    out = []
+    for f in sorted(os.listdir(d)) if os.path.isdir(d) else []:
+        if f.endswith(".diff"):
+            out.append(dict(name="refactoring-" + f[:-5], expect="silent", edits=[], rules=(), patch=os.path.join(d, f)))
+    return out
+
+
 def _run_one(args):
     pid, o = args
     d = tempfile.mkdtemp(prefix="sa_selfval_")
     try:
         shutil.copytree(os.path.join(REPO, "selfies"), os.path.join(d, "selfies"))
-        err = _apply(d, o["edits"])
+        err = _apply_patch(d, o["patch"]) if o.get("patch") else _apply(d, o["edits"])
         if err is not None:
             return (o, "inapplicable", err, [])
         env = dict(os.environ)
@@ -264,7 +294,7 @@ def _run_one(args):
 
 
 def validate(pid, rep, seed):
-    ops = list(OPS.get(pid, [])) + list(BENIGN)
+    ops = list(OPS.get(pid, [])) + list(BENIGN) + benign_patches()
     t0 = time.time()
     with ThreadPoolExecutor(max_workers=min(16, max(1, len(ops)))) as ex:
         results = list(ex.map(_run_one, [(pid, o) for o in ops]))
